@@ -5,19 +5,26 @@
        NM { thr|d  send_interval|d  once  close  accept_group  allow_rx  deny_rx }*NM
        NN { name { a_set a_match d_set d_match (one 4-char token) }*NM }*NN
        NP { cluster name_index }*NP
-       NS { dt_ns pair_index status }*NS
+       NS { step }*NS
+     step = r dt_ns pair_index status                       an evaluator response               -> HResponse
+          | g dt_ns cluster n name_index*n                  processConsumerList(cluster, list)  -> HRefresh
+            (n = -1: the reply channel is closed without a value, which the code reads as an empty list)
+          | c dt_ns n { cluster m name_index*m }*n          a whole refresh cycle: sendClusterRequest, the cluster list,
+                                                            then one group list per (distinct) cluster
+                                                            -> HClusters; HRefresh for each distinct cluster (first entry wins)
    (hist = current code, hist0 = behaviour before the F3 fix; `d` = option left unset, i.e. Configure's default)
 
    output line:
-     step | step | ... || group ; group ; ...
-     step  = "-" or the calls of that response sorted as strings, joined by ","
-     call  = m<module>:c<cluster>:g<name_index>:<status>:<id|->:<start|->:<stateGood>
-     group = <id|->:<start|->:<LastNotify m1>/<LastNotify m2>/...          (state after the last step) *)
+     step | step | ... || K:<cluster,cluster,..|-> ; record ; record ; ...
+     step   = "-" or the calls of that step sorted as strings, joined by ","
+     call   = m<module>:c<cluster>:g<name_index>:<status>:<id|->:<start|->:<stateGood>
+     record = c<cluster>/g<name_index>=<id|->:<start|->:<LastNotify m1>/<LastNotify m2>/...
+              (every record that exists after the last step, by cluster, then name index; K: the cluster entries) *)
 open Model
 open Vutil
 
 let rep (n : int) (f : unit -> 'a) : 'a list =
-  let rec go i acc = if i = 0 then List.rev acc else let x = f () in go (i - 1) (x :: acc) in
+  let rec go i acc = if i <= 0 then List.rev acc else let x = f () in go (i - 1) (x :: acc) in
   go n []
 
 let flag t : bool = match next t with "1" -> true | "0" -> false | s -> failwith ("drv_notifier: bad flag " ^ s)
@@ -51,22 +58,53 @@ let hist (fixed : bool) t : string =
     mk_mod (zi (i + 1)) thr iv once close accg lists) raw in
   let np = next_int t in
   let pairs = Array.of_list (rep np (fun () -> let c = next_z t in let g = next_z t in (c, g))) in
+  let universe = ref (List.map (fun (c, _) -> iz c) (Array.to_list pairs)) in
+  let see (c : z) = universe := iz c :: !universe in
   let ns = next_int t in
   let clock = ref (zt_of_coqz t0) in
-  let h = rep ns (fun () ->
-    let dt = ZA.of_string (next t) in
-    let p = next_int t in
-    let status = next_z t in
-    clock := ZA.add !clock dt;
-    let (c, g) = pairs.(p) in
-    (coqz_of_zt !clock, { nr_cluster = c; nr_group = g; nr_status = status })) in
-  let (outs, st) = run_gen fixed mods c_init h in
+  let tick () = clock := ZA.add !clock (ZA.of_string (next t)); coqz_of_zt !clock in
+  let group_list () : z list =
+    let n = next_int t in rep n (fun () -> next_z t) in
+  (* one case-line step = one or more model events; the calls of the step are those of its events *)
+  let steps : nevent list list = rep ns (fun () ->
+    match next t with
+    | "r" ->
+        let now = tick () in
+        let p = next_int t in
+        let status = next_z t in
+        let (c, g) = pairs.(p) in
+        [ ev_response now c g status ]
+    | "g" ->
+        let now = tick () in
+        let c = next_z t in see c;
+        [ HRefresh (now, c, group_list ()) ]
+    | "c" ->
+        let now = tick () in
+        let n = next_int t in
+        let entries = rep n (fun () -> let c = next_z t in see c; (c, group_list ())) in
+        let rec dedup seen = function
+          | [] -> []
+          | (c, gs) :: r -> if List.mem (iz c) seen then dedup seen r else (c, gs) :: dedup (iz c :: seen) r in
+        HClusters (now, List.map fst entries) :: List.map (fun (c, gs) -> HRefresh (now, c, gs)) (dedup [] entries)
+    | k -> failwith ("drv_notifier: unknown step kind " ^ k)) in
+  let st = ref c_init in
+  let outs = List.map (fun evs ->
+    List.concat (List.map (fun e ->
+      let (st', cs) = on_event_gen fixed mods !st e in
+      st := st'; cs) evs)) steps in
   let step cs = if cs = [] then "-" else String.concat "," (List.sort compare (List.map fmt_call cs)) in
-  let grp (c, g) =
-    let gs = group_of st c g in
-    String.concat ":" [ opt_z gs.g_id; opt_z gs.g_start;
-                        String.concat "/" (List.mapi (fun i _ -> opt_z (gs.g_last (zi (i + 1)))) raw) ] in
-  String.concat " | " (List.map step outs) ^ " || " ^ String.concat " ; " (List.map grp (Array.to_list pairs))
+  let clusters = List.sort_uniq compare !universe in
+  let known = List.filter (fun c -> !st.c_known (zi c)) clusters in
+  let recs = List.concat (List.map (fun c ->
+    List.concat (List.init nn (fun g ->
+      if has_record !st (zi c) (zi g) then begin
+        let gs = group_of !st (zi c) (zi g) in
+        [ Printf.sprintf "c%d/g%d=%s" c g
+            (String.concat ":" [ opt_z gs.g_id; opt_z gs.g_start;
+                                 String.concat "/" (List.mapi (fun i _ -> opt_z (gs.g_last (zi (i + 1)))) raw) ]) ]
+      end else []))) clusters) in
+  let k = "K:" ^ (if known = [] then "-" else String.concat "," (List.map string_of_int known)) in
+  String.concat " | " (List.map step outs) ^ " || " ^ String.concat " ; " (k :: recs)
 
 let run (line : string) : string =
   let t = toks_of_line line in
